@@ -347,7 +347,8 @@ def jobs(tier):
     plan = [(("send",), 1, 15, [base, (True, False, 0, True), (True, True, 0, False), ackm, (True, False, 1, True)]),
             (("send",), 3, 4, [base, ackm]), (("send", "send"), 1, 3, [base, ackm]), (("send", "resend"), 1, 3, [base, ackm]),
             (("sendlist",), 1, 3, [base, ackm, (True, False, 1, True)]), (("sendlist",), 0, 2, [(True, False, 2, "mix")]), (("resend",), 0, 3, [base]), (("send", "resend", "send"), 0, 2, [base]),
-            (("send", "send"), 0, 2, [(True, False, 2, "mix")])]
+            (("send", "send"), 0, 2, [(True, False, 2, "mix")]), (("send", "send", "send"), 0, 1, [(True, False, 2, "mix")]),
+            (("send", "send", "resend"), 0, 1, [(True, False, 2, "mix")])]
     if tier == "thorough":
         plan += [(("send",), 3, 15, [base, ackm]), (("send", "send"), 3, 7, [base, ackm]), (("send", "resend"), 3, 7, [base, ackm]),
                  (("send", "send", "send"), 1, 3, [base, (True, False, 2, "mix")])]
